@@ -19,7 +19,7 @@ statement becomes `if c then [[then ++ rest]] else [[else ++ rest]]` (the contin
 the `Nat` side with `Int.ofNat`, a shift count is `.toNat` (Python raises ValueError for a negative count - none of the kernels can
 produce one, and the equivalence theorems would not care: stated in DESIGN 5 as modelled-not-verified).
 """
-import ast, inspect, os, sys, textwrap, hashlib
+import ast, inspect, json, os, sys, textwrap, hashlib
 
 
 class Unsupported(Exception):
@@ -213,6 +213,8 @@ class Tr:
             return ("(%s %s %s)" % (a, sym, b), "Int")
         if isinstance(f, ast.Name) and f.id == "int" and len(n.args) == 1:
             return self.expr(n.args[0])
+        if isinstance(f, ast.Name) and f.id == "abs" and len(n.args) == 1:
+            return ("(Int.ofNat (%s).natAbs)" % self.coerce(self.expr(n.args[0]), "Int"), "Int")
         if isinstance(f, ast.Name) and f.id == "isinstance":
             return ("true", "Bool")                     # parameters have their declared types
         if isinstance(f, ast.Attribute) and f.attr in self.callees and self.callees[f.attr][1] == "pure":
@@ -262,6 +264,20 @@ class Tr:
             return self.block(rest, ind)
         if isinstance(s, ast.Pass):
             return self.block(rest, ind)
+        if isinstance(s, ast.Expr) and isinstance(s.value, ast.Call) and self.attr_chain(s.value.func) == "stream.write":
+            # `stream.write(struct.pack(FMT, a, b, ...))`: the bytes are appended to the output state `out`; `struct.error` propagates
+            if "out" not in self.fn.out_state or len(s.value.args) != 1:
+                raise Unsupported("stream.write in a kernel without an output state")
+            pk = s.value.args[0]
+            if not (isinstance(pk, ast.Call) and self.attr_chain(pk.func) == "struct.pack" and pk.args
+                    and isinstance(pk.args[0], ast.Constant) and isinstance(pk.args[0].value, str)):
+                raise Unsupported("stream.write of something that is not struct.pack(<constant format>, ...)")
+            fmt = pk.args[0].value
+            if not (fmt[:1] in ">!" and all(c in "HBbhlqQL" for c in fmt[1:]) and len(fmt) - 1 == len(pk.args) - 1):
+                raise Unsupported("struct format %r" % fmt)
+            args = ", ".join(self.coerce(self.expr(a), "Int") for a in pk.args[1:])
+            return ("%smatch structPack %s [%s] with\n%s| .error e => .error e\n%s| .ok bs =>\n%s  let out : List UInt8 := out ++ bs\n%s"
+                    % (pad, json.dumps(fmt[1:]), args, pad, pad, pad, self.block(rest, ind + 1)))
         if isinstance(s, ast.Assign):
             if len(s.targets) != 1:
                 raise Unsupported("multiple assignment")
@@ -333,8 +349,8 @@ def _stale_test(fdef):
     raise Unsupported("_recv_datagram: the stale-datagram guard was not found in its expected shape")
 
 
-def kernels(C):
-    """the fixed list of kernels; C = the live `mpgameserver.connection` module of the tree under test"""
+def kernels(C, Z=None):
+    """the fixed list of kernels; C, Z = the live `mpgameserver.connection` / `mpgameserver.serializable` modules of the tree under test"""
     S, B, P = C.SeqNum, C.BitField, C.Packet
 
     def f(cls, name):
@@ -370,6 +386,11 @@ def kernels(C):
            types={"self_bitfield_pkt_nbits": "Nat"}, seq=("self_bitfield_pkt_current_seqnum", "pkt_hdr_seq"),
            doc="the stale-datagram guard of `_recv_datagram` (true = dropped as a replay)"),
     ]
+    if Z is not None:
+        k = Fn("serialize_int", Z.serialize_int, [("stream", "Unit"), ("value", "Int")], state=["out"], types={"out": "List UInt8"}, ret=None,
+               doc="serialize_int: width selection and `struct.pack`; state = the bytes written to `stream`")
+        k.ns = vars(Z)
+        ks.append(k)
     return ks
 
 
@@ -378,6 +399,7 @@ READS = {   # read-only attributes that become extra parameters (they are object
     "BitField_contains": [("self_nbits", "Nat"), ("self_onehot", "Nat"), ("self_bits", "Nat"), ("self_current_seqnum", "Int")],
     "ack_names": [("hdr_ack", "Int"), ("hdr_ack_bits", "Nat")],
     "stale_datagram": [("self_bitfield_pkt_current_seqnum", "Int"), ("self_bitfield_pkt_nbits", "Nat"), ("pkt_hdr_seq", "Int")],
+    "serialize_int": [("out", "List UInt8")],
 }
 
 CALLEES = {"diff": ("SeqNum_diffV", "pure", "Int")}
@@ -388,8 +410,39 @@ One Lean definition per Python kernel, statement by statement (see the translato
 -/
 namespace Mpgs.Gen
 
-inductive Err | valueError | duplication | typeError
+inductive Err | valueError | duplication | typeError | structError
   deriving DecidableEq, Repr
+
+'''
+
+STRUCT = '''/-- big-endian image of `n` in `w` bytes -/
+def beBytes : Nat → Nat → List UInt8
+  | 0, _ => []
+  | w + 1, n => UInt8.ofNat (n / 256 ^ w % 256) :: beBytes w n
+
+/-- one field of `struct.pack` (standard sizes, big endian): `struct.error` outside the range of the format character -/
+def packField (c : Char) (v : Int) : Except Err (List UInt8) :=
+  let signed (w : Nat) : Except Err (List UInt8) :=
+    if -(256 ^ w / 2 : Int) ≤ v ∧ v < (256 ^ w / 2 : Int) then .ok (beBytes w (v % (256 ^ w : Int)).toNat) else .error .structError
+  let unsigned (w : Nat) : Except Err (List UInt8) :=
+    if 0 ≤ v ∧ v < (256 ^ w : Int) then .ok (beBytes w v.toNat) else .error .structError
+  match c with
+  | 'B' => unsigned 1 | 'H' => unsigned 2 | 'L' => unsigned 4 | 'Q' => unsigned 8
+  | 'b' => signed 1 | 'h' => signed 2 | 'l' => signed 4 | 'q' => signed 8
+  | _ => .error .structError
+
+/-- `struct.pack(">" ++ fmt, *args)` -/
+def structPackL : List Char → List Int → Except Err (List UInt8)
+  | [], [] => .ok []
+  | c :: cs, v :: vs =>
+    match packField c v with
+    | .error e => .error e
+    | .ok a => match structPackL cs vs with
+      | .error e => .error e
+      | .ok b => .ok (a ++ b)
+  | _, _ => .error .structError
+
+def structPack (fmt : String) (args : List Int) : Except Err (List UInt8) := structPackL fmt.toList args
 
 '''
 
@@ -402,68 +455,109 @@ def SeqNum_diffV (self other : Int) : Int :=
 '''
 
 
+GROUPS = {      # group -> (kernels, imports): one Lean file and one equivalence module per group, so that a check only depends on its own
+    "Seq": (["SeqNum_new", "SeqNum_diff", "SeqNum_add", "SeqNum_sub", "SeqNum_newer_than", "SeqNum_lt", "SeqNum_gt"], []),
+    "Window": (["BitField_insert", "BitField_contains", "stale_datagram"], ["Seq"]),
+    "Ack": (["ack_names"], ["Seq"]),
+    "Size": (["Packet_overhead", "Packet_setMTU"], ["Seq"]),
+    "Serial": (["serialize_int"], ["Seq"]),
+}
+
+
+def translate_one(fn, default_ns):
+    ns = getattr(fn, "ns", None) or default_ns
+    reads = READS.get(fn.lean, [])
+    py_params = list(fn.params)
+    for v, t in py_params + reads:
+        fn.types[v] = t
+    fn.out_state = list(fn.state)                                   # what the kernel assigns: returned
+    fn.state = fn.out_state + [v for v, _ in reads if v not in fn.out_state]   # everything that is a variable, not a constant
+    tr = Tr(fn, ns, CALLEES)
+    src = textwrap.dedent(inspect.getsource(fn.obj))
+    fdef = ast.parse(src).body[0]
+    if not isinstance(fdef, ast.FunctionDef):
+        raise Unsupported("%s: not a function" % fn.lean)
+    names = [a.arg for a in fdef.args.args if a.arg != "cls"]
+    want = [p for p, _ in py_params]
+    if "self" in names and "self" not in want:
+        names.remove("self")
+    if fn.extract is None and names != want:
+        raise Unsupported("%s: parameters are %s, the translator expects %s" % (fn.lean, names, want))
+    stmts = list(fdef.body) if fn.extract is None else fn.extract(fdef)
+    for node in [x for st in stmts for x in ast.walk(st)]:
+        if isinstance(node, (ast.Assign, ast.AugAssign)):
+            for t in (node.targets if isinstance(node, ast.Assign) else [node.target]):
+                if isinstance(t, ast.Attribute):
+                    ch = tr.attr_chain(t)
+                    if ch is None or tr.var_of(ch) not in fn.out_state:
+                        raise Unsupported("%s assigns %s, which is not declared as its state" % (fn.lean, ch))
+    body = tr.block(stmts, 1)
+    binders = " ".join("(%s : %s)" % (p, t) for p, t in py_params + reads)
+    rty = ([fn.ret] if fn.ret is not None else []) + [fn.types.get(v, "Int") for v in fn.out_state]
+    text = "/-- %s -/\ndef %s %s : Except Err (%s) :=\n%s\n\n" % (fn.doc, fn.lean, binders, " × ".join(rty), body)
+    if fn.lean == "SeqNum_diff":
+        text += DIFFV
+    return text, hashlib.sha1(src.encode()).hexdigest()[:12]
+
+
 def generate(repo):
+    """group -> {"text": Lean source | None, "digests": {...}, "error": str | None}"""
     sys.path.insert(0, repo)
     import mpgameserver.connection as C
+    import mpgameserver.serializable as Z
     assert os.path.realpath(C.__file__).startswith(os.path.realpath(repo)), (C.__file__, repo)
-    ns = vars(C)
-    out = [PRELUDE]
-    digests = {}
-    for fn in kernels(C):
-        reads = READS.get(fn.lean, [])
-        py_params = list(fn.params)
-        for v, t in py_params + reads:
-            fn.types[v] = t
-        fn.out_state = list(fn.state)                                   # what the kernel assigns: returned
-        fn.state = fn.out_state + [v for v, _ in reads if v not in fn.out_state]   # everything that is a variable, not a constant
-        tr = Tr(fn, ns, CALLEES)
-        src = textwrap.dedent(inspect.getsource(fn.obj))
-        fdef = ast.parse(src).body[0]
-        if not isinstance(fdef, ast.FunctionDef):
-            raise Unsupported("%s: not a function" % fn.lean)
-        names = [a.arg for a in fdef.args.args if a.arg != "cls"]
-        want = [p for p, _ in py_params]
-        if "self" in names and "self" not in want:
-            names.remove("self")
-        if fn.extract is None and names != want:
-            raise Unsupported("%s: parameters are %s, the translator expects %s" % (fn.lean, names, want))
-        stmts = list(fdef.body) if fn.extract is None else fn.extract(fdef)
-        for node in [x for st in stmts for x in ast.walk(st)]:
-            if isinstance(node, (ast.Assign, ast.AugAssign)):
-                for t in (node.targets if isinstance(node, ast.Assign) else [node.target]):
-                    if isinstance(t, ast.Attribute):
-                        ch = tr.attr_chain(t)
-                        if ch is None or tr.var_of(ch) not in fn.out_state:
-                            raise Unsupported("%s assigns %s, which is not declared as its state" % (fn.lean, ch))
-        body = tr.block(stmts, 1)
-        binders = " ".join("(%s : %s)" % (p, t) for p, t in py_params + reads)
-        rty = ([fn.ret] if fn.ret is not None else []) + [fn.types.get(v, "Int") for v in fn.out_state]
-        out.append("/-- %s -/\ndef %s %s : Except Err (%s) :=\n%s\n\n" % (fn.doc, fn.lean, binders, " × ".join(rty), body))
-        digests[fn.lean] = hashlib.sha1(src.encode()).hexdigest()[:12]
-        if fn.lean == "SeqNum_diff":
-            out.append(DIFFV)
-    out.append("end Mpgs.Gen\n")
-    return "".join(out), digests
+    assert os.path.realpath(Z.__file__).startswith(os.path.realpath(repo)), (Z.__file__, repo)
+    byname = {fn.lean: fn for fn in kernels(C, Z)}
+    res = {}
+    for g, (names, imports) in GROUPS.items():
+        out = ["".join("import MpgsModel.Generated.%s\n" % i for i in imports)]
+        if g == "Seq":
+            out.append(PRELUDE)
+        else:
+            out.append("/- GENERATED by harness/translate.py from the working tree under test - do not edit. -/\nnamespace Mpgs.Gen\n\n")
+        if g == "Serial":
+            out.append(STRUCT)
+        digests, err = {}, None
+        for n in names:
+            try:
+                text, dg = translate_one(byname[n], vars(C))
+            except Unsupported as e:
+                err = "%s: %s" % (n, e)
+                break
+            out.append(text)
+            digests[n] = dg
+        out.append("end Mpgs.Gen\n")
+        res[g] = {"text": None if err else "".join(out), "digests": digests, "error": err}
+    return res
 
 
-def regenerate(repo, verif):
-    """returns (changed, digests); raises Unsupported when a kernel left the accepted subset"""
-    text, digests = generate(repo)
-    path = os.path.join(verif, "lean", "MpgsModel", "Generated", "Kernels.lean")
-    os.makedirs(os.path.dirname(path), exist_ok=True)
-    old = open(path).read() if os.path.exists(path) else None
-    if old != text:
-        tmp = path + ".tmp%d" % os.getpid()
-        open(tmp, "w").write(text)
-        os.replace(tmp, path)
-    return old != text, digests
+def regenerate(repo, verif, groups=None):
+    """rewrites lean/MpgsModel/Generated/<Group>.lean for every group; returns group -> {"rewritten", "digests", "error"}"""
+    res = generate(repo)
+    d = os.path.join(verif, "lean", "MpgsModel", "Generated")
+    os.makedirs(d, exist_ok=True)
+    rep = {}
+    for g, r in res.items():
+        path = os.path.join(d, g + ".lean")
+        changed = False
+        if r["text"] is not None:
+            old = open(path).read() if os.path.exists(path) else None
+            if old != r["text"]:
+                tmp = path + ".tmp%d" % os.getpid()
+                open(tmp, "w").write(r["text"])
+                os.replace(tmp, path)
+                changed = True
+        rep[g] = {"rewritten": changed, "digests": r["digests"], "error": r["error"]}
+    return rep
 
 
 if __name__ == "__main__":
     verif = os.path.dirname(os.path.dirname(os.path.abspath(__file__)))
     repo = os.environ.get("VERIF_REPO", "/repo")
     if len(sys.argv) > 1 and sys.argv[1] == "--print":
-        print(generate(repo)[0])
+        for g, r in generate(repo).items():
+            print("-- ======== %s %s" % (g, r["error"] or ""))
+            print(r["text"] or "")
     else:
-        ch, dg = regenerate(repo, verif)
-        print("Generated/Kernels.lean %s" % ("rewritten" if ch else "unchanged"), dg)
+        for g, r in regenerate(repo, verif).items():
+            print("Generated/%s.lean %s %s" % (g, "rewritten" if r["rewritten"] else "unchanged", r["error"] or ""))
